@@ -40,7 +40,8 @@ Endpoints(a) == SelectSeq([i \in 1..Len(a) |-> Endpoint(a[i])], LAMBDA x : x.kin
 (* ---- the case space ---- *)
 P(s) == [i \in 1..Len(s) |-> <<s[i]>>]       \* plain characters as tokens
 PathPlain == P(<<"/", "t", "/", "b">>)
-PathEsc == <<<<"/">>, <<"t">>, <<"%", " ">>, <<"b">>, <<"%", "-">>, <<"x">>>>          \* "/t%20b%2dx" = "/t b-x"
+PathEsc == <<<<"/">>, <<"t">>, <<"%", " ">>, <<"b">>, <<"%", "-">>, <<"x">>, <<"%", ",">>, <<"y">>, <<"%", ";">>, <<"z">>>>
+           \* "/t%20b%2dx%2cy%3bz" = "/t b-x,y;z": escaped separators are part of the value
 Guid == P(<<"a", "1">>)
 Host == P(<<"h", ".", "x">>)
 Port == P(<<"4", "2">>)
